@@ -309,7 +309,7 @@ EvCb(e) ==
              THEN (IF strials = 0 /\ (e.ncalc = 0 \/ Probing) /\ sn.before = 0 THEN {} ELSE {"NotifBefore"})
              ELSE IF e.kind = "stop"
              THEN (IF spc = "solve" THEN {} ELSE {"NotifStopCount"})
-                  \cup (IF e.same_sd THEN {} ELSE {"NotifStopFinal"})
+
                   \cup (IF sfault \/ e.status = StopMaybe \/ e.status = StopDef THEN {} ELSE {"NotifStopStatus"})
              ELSE IF e.kind = "console"
              THEN (IF sn.last = <<>> THEN {"ConsoleReport"}
